@@ -586,6 +586,32 @@ func runC(t *vlib.T) {
 
 // cCount reports the number of trees per layer (development aid: C09_COUNT=1).
 func cCount(th bool) {
+	na := len(atoms())
+	third := na
+	if !th {
+		third = len(repIDs)
+	}
+	fmt.Printf("A: %d atoms; 1-chains %d, 2-chains %d, 3-chains %d, long chains %d\n", na, 5*na, 7*na*na, 2*third*third*third, 2*(16+32+64))
+	nb := 0
+	seqs := allSeqs(th)
+	for _, q := range seqs {
+		nb += 14
+		if q.kind == "list" || q.kind == "typed" || q.kind == "literal" {
+			nb += 4
+		}
+	}
+	fmt.Printf("B: %d sequences, %d cases\n", len(seqs), nb)
+	nd, p := 0, 1
+	for l := 1; l <= dMaxLen(th); l++ {
+		p *= len(dAlphabet)
+		nd += 2 * p
+	}
+	ne, p := 0, 1
+	for l := 1; l <= eMaxDepth(th); l++ {
+		p *= len(eWrappers)
+		ne += p
+	}
+	fmt.Printf("D: %d cases; E: %d cases\n", nd, ne)
 	for _, l := range cLayers(th) {
 		g := newGen(l.al)
 		top := gctx{0, false}
